@@ -506,9 +506,22 @@ def invariants(api):
         lal = ns.linearize_aliases()
         chk(sorted(a.name for a in lal) == an and len(lal) == len(an), 'linearize_aliases not a permutation')
         pos = {a.name: i for i, a in enumerate(lal)}
+        def nested_aliases(dt, depth=0):
+            if isinstance(dt, D.Alias):
+                return [dt]
+            out = []
+            if depth < 20:
+                for attr in ('data_type', 'key_data_type', 'value_data_type'):
+                    inner = getattr(dt, attr, None)
+                    if inner is not None and not isinstance(dt, D.UserDefined):
+                        out += nested_aliases(inner, depth + 1)
+            return out
         for a in lal:
-            if isinstance(a.data_type, D.Alias) and a.data_type.namespace is ns:
-                chk(pos.get(a.data_type.name, 1e9) < pos[a.name], 'linearization: alias target after alias')
+            for tgt in nested_aliases(a.data_type):
+                if tgt.namespace is ns:
+                    chk(pos.get(tgt.name, 1e9) < pos[a.name],
+                        'linearization: alias target after alias' if tgt is a.data_type else
+                        'linearization: alias referenced inside a container comes after the alias using it')
         for d in ns.data_types:
             chk(d.namespace is ns, 'type registered in foreign namespace')
             chk(not d._is_forward_ref, 'registered forward reference')
